@@ -36,7 +36,7 @@ ExecAllowed(op, a) ==
 Allowed(op, a) ==
   /\ a.ms <= PromptMs \/ (op.k = "exec" /\ op.v = "sleep" /\ op.cancel = "none")
   /\ CASE op.k = "ping"  -> a.r = "ok"
-       [] op.k = "reset" -> a.r = "ok"
+       [] op.k = "reset" -> IF op.v = "busy" THEN CallErr(a) ELSE a.r = "ok"    \* busy: mounts nested in the tmpfs mounts cannot be removed
        [] op.k = "open"  -> CASE op.v = "ok"    -> a.r = "ok" /\ a.detail = "."
                               [] op.v = "bad"   -> a.r = "ok" /\ a.detail = "E"
                               [] op.v = "mixed" -> a.r = "ok" /\ a.detail = ".E."
